@@ -179,11 +179,22 @@ def mk_PROBEBADBLOCK(label):
     return _faulty(label, 2, ('len', 0, 'plus1'), base=mk_RSA2048, conn=1)
 
 
+def mk_PROBEKEXBAD(label):
+    # healthy first connection; on the host-key probe connection a KEXINIT whose first name-list length overruns the packet
+    return _faulty(label, 1, ('len', 2, 'huge31'), base=mk_RSA2048, conn=1)
+
+
+def mk_PROBEHOSTKEYBAD(label):
+    # healthy first connection; the probe's KEXDH reply carries a host-key blob whose inner length overruns it
+    return _faulty(label, 2, ('len', 2, 'huge31'), base=mk_RSA2048, conn=1)
+
+
 FAILING = {
     'UNRESOLVABLE': None, 'REFUSED': mk_REFUSED, 'CONNTIMEOUT': mk_CONNTIMEOUT, 'SILENT': mk_SILENT, 'CLOSEEARLY': mk_CLOSEEARLY,
     'CLOSEAFTERBANNER': mk_CLOSEAFTERBANNER, 'BADBLOCK': mk_BADBLOCK, 'TRUNCKEXINIT': mk_TRUNCKEXINIT, 'WRONGFIRST': mk_WRONGFIRST,
     'GARBAGEBANNER': mk_GARBAGEBANNER, 'BADCRC': mk_BADCRC, 'PROBEGARBAGE': mk_PROBEGARBAGE, 'PROBEBADBLOCK': mk_PROBEBADBLOCK,
     'EMPTYPAYLOAD': mk_EMPTYPAYLOAD, 'PADOVERRUN': mk_PADOVERRUN, 'PROBEEMPTYPAYLOAD': mk_PROBEEMPTYPAYLOAD,
+    'PROBEKEXBAD': mk_PROBEKEXBAD, 'PROBEHOSTKEYBAD': mk_PROBEHOSTKEYBAD,
 }
 
 ALL = dict(HEALTHY)
